@@ -36,6 +36,9 @@ class TransportQuartWebsocket(AbstractMessagingTransport):
             while True:
                 data = await websocket.receive()
 
+                if not isinstance(data, (bytes, bytearray)):
+                    continue  # a text message is not an RSocket frame: skipped, as on the other websocket transports
+
                 async for frame in self._frame_parser.receive_data(data, 0):
                     self._incoming_frame_queue.put_nowait(frame)
         except asyncio.CancelledError:
